@@ -147,7 +147,7 @@ pub fn execute(scn: &Scn, opts: &ExecOpts) -> Outcome {
     }
     let scratch = Scratch::new("g");
     let sink = Arc::new(Sink::default());
-    let lscn = l::Scn { configs: scn.configs.clone(), threads: vec![], prop: "C02".into(), sched_seed: 0, policy: scn.policy.clone() };
+    let lscn = l::Scn { configs: scn.configs.clone(), threads: vec![], prop: "C02".into(), file_v0: false, broken: vec![], sched_seed: 0, policy: scn.policy.clone() };
     let file_dir = if scn.init_path == 2 { Some(scratch.root.clone()) } else { None };
     let sh = l::new_shared(lscn, sink.clone(), true, file_dir.clone());
     let sched = opts.sched.clone().unwrap_or(Sched::Prng { seed: scn.sched_seed, policy: scn.policy.clone() });
